@@ -109,18 +109,13 @@ impl BackwardEngine {
         let mut goal = QueryParser::parse(query_str)
             .map_err(|e| crate::errors::RuleEngineError::ParseError { message: e })?;
 
-        // Check cache if memoization enabled
+        // Check cache if memoization enabled. A verdict depends on the facts it was computed on,
+        // so it is memoised under the query AND a fingerprint of those facts. Only a failure is
+        // answered from the cache: a success has to derive the goal in the caller's facts again.
+        let memo_key = Self::memo_key(query_str, facts);
         if self.config.enable_memoization {
-            if let Some(cached) = self.goal_manager.is_cached(query_str) {
-                return Ok(if cached {
-                    QueryResult::success(
-                        goal.bindings.to_map(), // Convert Bindings to HashMap
-                        ProofTrace::from_goal(&goal),
-                        QueryStats::default(),
-                    )
-                } else {
-                    QueryResult::failure(vec![], QueryStats::default())
-                });
+            if let Some(false) = self.goal_manager.is_cached(&memo_key) {
+                return Ok(QueryResult::failure(vec![], QueryStats::default()));
             }
         }
 
@@ -159,7 +154,7 @@ impl BackwardEngine {
         // Cache result if enabled
         if self.config.enable_memoization {
             self.goal_manager
-                .cache_result(query_str.to_string(), search_result.success);
+                .cache_result(memo_key, search_result.success);
         }
 
         // Build query result
@@ -181,6 +176,19 @@ impl BackwardEngine {
         } else {
             QueryResult::failure(self.find_missing_facts(&goal), stats)
         })
+    }
+
+    /// Memoisation key: the query text and the facts it is asked on (top-level names sorted,
+    /// so that the key does not depend on map iteration order)
+    fn memo_key(query_str: &str, facts: &Facts) -> String {
+        let all = facts.get_all_facts();
+        let mut names: Vec<&String> = all.keys().collect();
+        names.sort();
+        let mut key = String::from(query_str);
+        for name in names {
+            key.push_str(&format!("|{:?}={:?}", name, all[name]));
+        }
+        key
     }
 
     /// Find all candidate rules that could prove a goal
